@@ -258,7 +258,11 @@ def model_share(prog, src):
                 code, size = listing_proc(ins, pr['kind'], pr['name'])
             except (ValueError, StopIteration):
                 return None
-            frames.append('%s %d %d %d' % (pr['name'], size, size, max(size, 16)))
+            try:
+                og = proc_og(pr['body'], [q['name'] for q in prog['procs'] if q['kind'] == 'func'])
+            except Exception:
+                return 'outside'
+            frames.append('%s %d %d %d' % (pr['name'], size, size - og, og))       # as in program_tie: exact for fragment-shaped programs
         poolv = []
         lines_ = text.split('\n')
         for q, ln in enumerate(lines_):
@@ -268,6 +272,14 @@ def model_share(prog, src):
                     v = int(m2.group(1))
                     poolv.append(v - (1 << 32) if v >= (1 << 31) else v)
         fr = ('\n'.join(frames) + '\n' + 'pool ' + ' '.join(str(v) for v in poolv) + '\n').encode()
+        # inside the fragment = the VALIDATED compile function of C01_program_partial (opt = 0: simple_procb, numbers_okb,
+        # no shadowing, ...) returns an image; the unvalidated opt = 1 output alone says nothing about a program outside it
+        rc0, out0, err0 = xcommon._run([_T.hv, 'xmc', 'p.sx', '0'], d, fr, 60)
+        m0 = out0.decode().strip()
+        if rc0 != 0 or not m0:
+            return None
+        if m0 in ('none', 'front-error'):
+            return 'outside'
         rc, out1, err = xcommon._run([_T.hv, 'xmc', 'p.sx', '1'], d, fr, 60)
         mo = out1.decode().strip()
         if rc != 0 or not mo:
